@@ -111,8 +111,10 @@ Proof. exact pass_sound_e2e. Qed.
 Print Assumptions C03_pass_sound.
 
 (* The caveat is real: dropping `panic_data_concrete`, the statement is FALSE of the faithful model.
-   Witness: `if (x == 1) revert Panic(x)` -- the revert data carries the symbolic term x; the path is
-   not classified as an assertion failure, the verdict is a clean PASS, the input x = 1 violates. *)
+   Witness: `if (y > 5) revert Panic(x)` -- the revert data carries the symbolic term x (not pinned to a
+   constant by the path); the path is not classified as an assertion failure, the verdict is a clean
+   PASS, the input x = 1 violates.  (When the path pins x by an equality branch `x == 1`, halmos'
+   concretization substitutes the constant and the case is handled: observed at L3.) *)
 Theorem C03_pass_sound_symbolic_code_refuted :
   let e := mkExploration cex_leaves false false in
   let concrete := fun _ : unit => mkOutcome ORevert (panic_encoding 1) false in
